@@ -28,9 +28,10 @@ Section Top.
   Variable init_state : res St.
   Variable terminate : nat -> nat -> option string.
   Variable ok : nat -> bool.
+  Hypothesis Hwf : wf_graph g.
   Hypothesis Hfr : forall e st prev, frontier e st prev = Ok (ok e).
   Hypothesis Htr : forall d e prev st, exists r, traverse d e prev st = Ok r.
-  Hypothesis Hest : forall a b st, exists c, estimate a b st = Ok c.
+  Hypothesis Hest : forall a b st, a < nverts g -> b < nverts g -> exists c, estimate a b st = Ok c.
   Hypothesis Hinit : exists i0, init_state = Ok i0.
   Hypothesis Hterm : forall a b, terminate a b = None.
   Notation le := (le clt).
@@ -57,24 +58,24 @@ Section Top.
   Qed.
 
   (* a successful search with a destination always yields a route *)
-  Lemma found_gives_route fuel t tr it : t <> source ->
+  Lemma found_gives_route fuel t tr it : t <> source -> t < nverts g ->
     run_a_star fuel d source (Some t) = Ok (tr, it) -> exists r, run_vertex_oriented fuel d source (Some t) = Ok r.
   Proof.
-    intros Hne Hrun. pose proof (a_star_target_spec clt cadd czero cfloor g frontier traverse estimate init_state terminate ok
-                                   Hfr Htr Hest Hinit d source Hsrc fuel t Hne) as Hs.
+    intros Hne Hlt Hrun. pose proof (a_star_target_spec clt cadd czero cfloor g frontier traverse estimate init_state terminate ok
+                                   Hwf Hfr Htr Hest Hinit d source Hsrc fuel t Hne Hlt) as Hs.
     rewrite Hrun in Hs. destruct Hs as (_&Hin&_).
     destruct (backtrack_ok g d source tr (tree_inv_of_run _ _ _ _ Hrun) t Hin) as (route&Hroute&_).
     unfold Search.run_vertex_oriented. rewrite Hrun. simpl. rewrite Hroute. simpl. eauto.
   Qed.
 
-  Theorem answer_iff_partial fuel t : t <> source ->
+  Theorem answer_iff_partial fuel t : t <> source -> t < nverts g ->
     run_a_star fuel d source (Some t) <> OutOfFuel ->
     ((exists r, run_vertex_oriented fuel d source (Some t) = Ok r) <-> reachable ok d g source t)
     /\ (run_vertex_oriented fuel d source (Some t) = Err "nopath"%string <-> ~ reachable ok d g source t).
   Proof.
-    intros Hne Hfuel.
+    intros Hne Hlt Hfuel.
     pose proof (a_star_target_spec clt cadd czero cfloor g frontier traverse estimate init_state terminate ok
-                  Hfr Htr Hest Hinit d source Hsrc fuel t Hne) as Hs.
+                  Hwf Hfr Htr Hest Hinit d source Hsrc fuel t Hne Hlt) as Hs.
     split; split.
     - intros [r Hr]. eapply (vertex_ok_route clt cadd czero cfloor g frontier traverse estimate init_state terminate ok); eauto.
     - intros Hr. destruct (run_a_star fuel d source (Some t)) as [[tr it]|c|w|] eqn:Hrun; try contradiction.
@@ -101,9 +102,10 @@ Section TopDijkstra.
   Variable init_state : res St.
   Variable terminate : nat -> nat -> option string.
   Variable ok : nat -> bool.
+  Hypothesis Hwf : wf_graph g.
   Hypothesis Hfr : forall e st prev, frontier e st prev = Ok (ok e).
   Hypothesis Htr : forall d e prev st, exists r, traverse d e prev st = Ok r.
-  Hypothesis Hest0 : forall a b st, estimate a b st = Ok czero.
+  Hypothesis Hest0 : forall a b st, a < nverts g -> b < nverts g -> estimate a b st = Ok czero.
   Hypothesis Hinit : exists i0, init_state = Ok i0.
   Hypothesis Hterm : forall a b, terminate a b = None.
   Notation le := (le clt).
@@ -118,18 +120,18 @@ Section TopDijkstra.
   Notation run_a_star := (run_a_star clt cadd czero cfloor g frontier traverse estimate init_state terminate).
   Notation run_vertex_oriented := (run_vertex_oriented clt cadd czero cfloor g frontier traverse estimate init_state terminate).
 
-  Lemma Hest_ex : forall a b st, exists c, estimate a b st = Ok c.
-  Proof. intros. rewrite Hest0. eauto. Qed.
+  Lemma Hest_ex : forall a b st, a < nverts g -> b < nverts g -> exists c, estimate a b st = Ok c.
+  Proof. intros. rewrite Hest0 by assumption. eauto. Qed.
 
-  Theorem dijkstra_answer_iff fuel t : t <> source -> size (universe d g source) < fuel ->
+  Theorem dijkstra_answer_iff fuel t : t <> source -> t < nverts g -> size (universe d g source) < fuel ->
     ((exists r, run_vertex_oriented fuel d source (Some t) = Ok r) <-> reachable ok d g source t)
     /\ (run_vertex_oriented fuel d source (Some t) = Err "nopath"%string <-> ~ reachable ok d g source t).
   Proof.
-    intros Hne Hf.
-    apply (answer_iff_partial clt cadd czero cfloor g frontier traverse estimate init_state terminate ok Hfr Htr
-             Hest_ex Hinit Hterm Hasym Hletrans Hinfl d source Hsrc fuel t Hne).
-    apply (dijkstra_fuel clt cadd czero cfloor g frontier traverse estimate init_state terminate ok Hfr Htr Hest0 Hinit Hzero
-             Hasym Hletrans Hinfl d source (Some t) Hsrc); [|exact Hf].
+    intros Hne Hlt Hf.
+    apply (answer_iff_partial clt cadd czero cfloor g frontier traverse estimate init_state terminate ok Hwf Hfr Htr
+             Hest_ex Hinit Hterm Hasym Hletrans Hinfl d source Hsrc fuel t Hne Hlt).
+    apply (dijkstra_fuel clt cadd czero cfloor g frontier traverse estimate init_state terminate ok Hwf Hfr Htr Hest0 Hinit Hzero
+             Hasym Hletrans Hinfl d source (Some t) (tgt_some g t Hlt) Hsrc); [|exact Hf].
     intros t0 [= <-]. exact Hne.
   Qed.
 
@@ -138,9 +140,9 @@ Section TopDijkstra.
   Proof.
     intros Hf.
     assert (Hts : forall t, @None nat = Some t -> t <> source) by discriminate.
-    pose proof (dijkstra_fuel clt cadd czero cfloor g frontier traverse estimate init_state terminate ok Hfr Htr Hest0 Hinit Hzero
-                  Hasym Hletrans Hinfl d source None Hsrc Hts fuel Hf) as Hnf.
-    pose proof (a_star_notarget_spec clt cadd czero cfloor g frontier traverse estimate init_state terminate ok Hfr Htr
+    pose proof (dijkstra_fuel clt cadd czero cfloor g frontier traverse estimate init_state terminate ok Hwf Hfr Htr Hest0 Hinit Hzero
+                  Hasym Hletrans Hinfl d source None (tgt_none g) Hsrc Hts fuel Hf) as Hnf.
+    pose proof (a_star_notarget_spec clt cadd czero cfloor g frontier traverse estimate init_state terminate ok Hwf Hfr Htr
                   Hest_ex Hinit d source Hsrc fuel) as Hs.
     unfold Search.run_vertex_oriented.
     destruct (run_a_star fuel d source None) as [[tr it]|c|w|]; simpl; try contradiction; eauto.
